@@ -31,7 +31,7 @@ def parse_line(ln):
         k = o[0]
         if k == "E":
             mcv, ch = o[1:].split(":")
-            ops.append(rb.E(bytes.fromhex(mcv), *[bytes.fromhex(c) for c in (ch.split(",") if ch != "" else [])]))
+            ops.append(rb.E(bytes.fromhex(mcv), *[(b"" if c == "z" else bytes.fromhex(c)) for c in (ch.split(",") if ch != "" else [])]))
         elif k == "J":
             mcv, d = o[1:].split(":")
             if d[0] == "h":
